@@ -54,6 +54,8 @@ func sameVal(a, b ssa.Value) bool {
 }
 
 func runErrflow(c *Ctx) {
+	c.runResultCtor()
+	c.runAccumulators()
 	p := c.P
 	exec := c.role("ERRFLOW-E5", "executor")
 	res := c.role("ERRFLOW-E1", "resolver")
